@@ -19,7 +19,7 @@ structure PMap where
   period : Option Int
   isReceived : Bool
   running : Option Int               -- period of the running periodic task (`_task is not None`), else `none`
-  callbacks : List Nat               -- registered callbacks, by tag
+  callbacks : List (Nat × Bool)      -- registered callbacks: tag, and whether the callback raises
 deriving Repr
 
 /-- a periodic task is running (`_task is not None`) -/
@@ -33,13 +33,67 @@ def mkMap (cob : Option Nat) (enabled rtr : Bool) (layout : List (Nat × Nat)) :
     data := List.replicate (dataSize (layout.map (·.2))) 0, timestamp := none, period := none,
     isReceived := false, running := none, callbacks := [] }
 
-/-- `PdoMap.on_message(can_id, data, timestamp)`: new map and the callbacks invoked (in order) -/
-def onMessage (m : PMap) (canId : Nat) (data : Bytes) (ts : Int) : PMap × List Nat :=
+/-! ### reception: `PdoMap.on_message` as an ordered sequence of effects -/
+
+/-- what `on_message` leaves: the map, what every invoked callback saw (tag, the map at the moment of
+    the call), whether the waiting readers were notified, whether a callback raised -/
+structure Recv where
+  map : PMap
+  seen : List (Nat × PMap)
+  woken : Bool
+  raised : Bool
+deriving Repr
+
+/-- the callbacks invoked by `for callback in self.callbacks: callback(self)`: in order, up to and
+    including the first one that raises -/
+def invoked : List (Nat × Bool) → List (Nat × Bool)
+  | [] => []
+  | cb :: rest => if cb.2 then [cb] else cb :: invoked rest
+
+def anyRaises (cbs : List (Nat × Bool)) : Bool := cbs.any (·.2)
+
+/-- `if self.timestamp is not None: self.period = timestamp - self.timestamp` -/
+def newPeriod (m : PMap) (ts : Int) : Option Int :=
+  match m.timestamp with
+  | some t0 => some (ts - t0)
+  | none => m.period
+
+/-- the statements of the receive block -/
+inductive Effect where
+  | received      -- `self.is_received = True`
+  | data          -- `self.data = data`
+  | period        -- `self.period = timestamp - self.timestamp` (when there was a timestamp)
+  | timestamp     -- `self.timestamp = timestamp`
+  | wake          -- `self.receive_condition.notify_all()`
+  | callbacks     -- `for callback in self.callbacks: callback(self)`
+deriving Repr, DecidableEq
+
+def applyEffect (data : Bytes) (ts : Int) (r : Recv) : Effect → Recv
+  | .received => { r with map := { r.map with isReceived := true } }
+  | .data => { r with map := { r.map with data := data } }
+  | .period => { r with map := { r.map with period := newPeriod r.map ts } }
+  | .timestamp => { r with map := { r.map with timestamp := some ts } }
+  | .wake => { r with woken := true }
+  | .callbacks => { r with seen := r.seen ++ (invoked r.map.callbacks).map (fun cb => (cb.1, r.map)),
+                           raised := anyRaises r.map.callbacks }
+
+/-- statements run in order; an exception ends the block -/
+def runEffects (data : Bytes) (ts : Int) (r : Recv) : List Effect → Recv
+  | [] => r
+  | e :: es => if r.raised then r else runEffects data ts (applyEffect data ts r e) es
+
+/-- the order of the statements in `PdoMap.on_message` -/
+def onMessageOrder : List Effect := [.received, .data, .period, .timestamp, .wake, .callbacks]
+
+/-- `PdoMap.on_message(can_id, data, timestamp)` -/
+def onMessage (m : PMap) (canId : Nat) (data : Bytes) (ts : Int) : Recv :=
   if m.cobId = some canId ∧ ¬ m.transmitting then
-    ({ m with isReceived := true, data := data,
-              period := (match m.timestamp with | some t0 => some (ts - t0) | none => m.period),
-              timestamp := some ts }, m.callbacks)
-  else (m, [])
+    runEffects data ts { map := m, seen := [], woken := false, raised := false } onMessageOrder
+  else { map := m, seen := [], woken := false, raised := false }
+
+/-- the map after an accepted frame -/
+def accept (m : PMap) (data : Bytes) (ts : Int) : PMap :=
+  { m with isReceived := true, data := data, period := newPeriod m ts, timestamp := some ts }
 
 /-- `var.raw` of variable `i` of the map -/
 def readVar (m : PMap) (i : Nat) : Option Val :=
@@ -147,34 +201,63 @@ def readFromOd (c : Consumer) (k : Nat) (cob : Nat) (enabled rtr : Bool) : Consu
     subscribeMap { c with maps := c.maps.set k m' } k
   | none => c
 
-/-- deliver to one map -/
-def deliverTo (maps : List PMap) (k : Nat) (canId : Nat) (data : Bytes) (ts : Int) : List PMap × List (Nat × Nat) :=
+/-- a callback invocation: consumer map, callback tag, the map as the callback saw it -/
+abbrev Call := Nat × Nat × PMap
+
+/-- deliver to one map: maps afterwards, invocations, whether a callback raised -/
+def deliverTo (maps : List PMap) (k : Nat) (canId : Nat) (data : Bytes) (ts : Int) : List PMap × List Call × Bool :=
   match maps[k]? with
   | some m =>
-    let (m', cbs) := onMessage m canId data ts
-    (maps.set k m', cbs.map fun cb => (k, cb))
-  | none => (maps, [])
+    let r := onMessage m canId data ts
+    (maps.set k r.map, r.seen.map (fun e => (k, e.1, e.2)), r.raised)
+  | none => (maps, [], false)
 
-/-- `Network.notify(can_id, data, timestamp)` on the consumer's network: every handler subscribed
-    to that id, in subscription order; returns the (map, callback) invocations in order -/
-def notify (c : Consumer) (canId : Nat) (data : Bytes) (ts : Int) : Consumer × List (Nat × Nat) :=
+/-- `for callback in callbacks: callback(can_id, data, timestamp)` in `Network.notify`: the handlers
+    in subscription order; an exception out of a handler ends the loop -/
+def notifyLoop (canId : Nat) (data : Bytes) (ts : Int) : List Nat → List PMap → List Call → List PMap × List Call × Bool
+  | [], maps, log => (maps, log, false)
+  | k :: ks, maps, log =>
+    let r := deliverTo maps k canId data ts
+    if r.2.2 then (r.1, log ++ r.2.1, true) else notifyLoop canId data ts ks r.1 (log ++ r.2.1)
+
+/-- a received frame: `MessageListener.on_message_received` → `Network.notify(can_id, data, timestamp)`
+    on the consumer's network: every handler subscribed to that id, in subscription order, until one
+    raises (the listener logs and swallows the exception); returns the invocations in order -/
+def notify (c : Consumer) (canId : Nat) (data : Bytes) (ts : Int) : Consumer × List Call :=
   let targets := (c.subs.filter fun s => s.1 = canId).map (·.2)
-  let (maps, log) := targets.foldl
-    (fun (acc : List PMap × List (Nat × Nat)) k =>
-      let (ms, l) := deliverTo acc.1 k canId data ts
-      (ms, acc.2 ++ l)) (c.maps, [])
-  ({ c with maps := maps }, log)
+  let r := notifyLoop canId data ts targets c.maps []
+  ({ c with maps := r.1 }, r.2.1)
 
-/-- `wait_for_reception(timeout)`: clears `is_received`, waits; the frames in `arrivals` are
-    delivered meanwhile; returns the timestamp if one of them was for this map -/
+/-- the state in which a wait starts: `is_received = False` -/
+def clearReceived (c : Consumer) (k : Nat) : Consumer :=
+  match c.maps[k]? with
+  | some m => { c with maps := c.maps.set k { m with isReceived := false } }
+  | none => c
+
+/-- what `wait_for_reception` returns when it reads the map: `timestamp if is_received else None` -/
+def waitResult (c : Consumer) (k : Nat) : Option Int :=
+  match c.maps[k]? with
+  | some m => if m.isReceived then m.timestamp else none
+  | none => none
+
+/-- `wait_for_reception(timeout)` with the frames in `arrivals` all delivered while the reader is
+    inside `wait()` (scripted monitor): clears `is_received`, waits, then reads the map -/
 def waitForReception (c : Consumer) (k : Nat) (arrivals : List (Nat × Bytes × Int)) :
     Consumer × Option Int :=
-  let c0 : Consumer := match c.maps[k]? with
-    | some m => { c with maps := c.maps.set k { m with isReceived := false } }
-    | none => c
-  let c1 := arrivals.foldl (fun acc a => (notify acc a.1 a.2.1 a.2.2).1) c0
-  match c1.maps[k]? with
-  | some m => (c1, if m.isReceived then m.timestamp else none)
-  | none => (c1, none)
+  let c1 := arrivals.foldl (fun acc a => (notify acc a.1 a.2.1 a.2.2).1) (clearReceived c k)
+  (c1, waitResult c1 k)
+
+/-- one arrival while a reader thread waits: the first frame after which the map says `is_received`
+    ends the wait (the reader returns that moment's timestamp); later frames find nobody waiting -/
+def threadedStep (k : Nat) (acc : Consumer × Option Int) (a : Nat × Bytes × Int) : Consumer × Option Int :=
+  let c' := (notify acc.1 a.1 a.2.1 a.2.2).1
+  (c', match acc.2 with
+       | some r => some r
+       | none => waitResult c' k)
+
+/-- `wait_for_reception(timeout)` in a thread of its own, the frames delivered one after the other
+    from another thread once the reader waits; `none`: time-out -/
+def waitThreaded (c : Consumer) (k : Nat) (arrivals : List (Nat × Bytes × Int)) : Consumer × Option Int :=
+  arrivals.foldl (threadedStep k) (clearReceived c k, none)
 
 end Canopen.Pdo
